@@ -307,6 +307,83 @@ def mask_codes(rnd, tier):
     return progs
 
 
+def derived_types(rnd, tier):
+    """C02 / C06: variables made by eval whose type differs from the type of
+    the variables they were derived from (comparison: bool; bool - int: int64;
+    int * float: float64), masked and plain - then sliced through the string
+    form and the method (variables without the selected dimension must come
+    out identical), or masked with values the type cannot hold (cells that
+    were masked stay masked)."""
+    def V(k):
+        return {'t': 'var', 'k': k}
+
+    def B(op, l_, r):
+        return {'t': 'bin', 'op': op, 'l': l_, 'r': r}
+
+    def I(v):
+        return {'t': 'int', 'v': v}
+    nowhere = {'h': False, 'shape': [], 'bits': []}
+    exprs = {'T4': [B('-', B('==', V('G'), V('G')), I(2)),
+                    B('<=', V('G'), I(440)), B('*', V('H'), I(3)),
+                    B('+', B('*', V('G'), I(1000000)), V('G')),
+                    B('>', V('D'), I(403))],
+             'T6': [B('<=', B('+', V('V'), I(1)), B('-', V('V'), I(4))),
+                    B('-', B('==', V('V'), V('V')), I(2))]}
+    dims = {'T4': ['t', 'z', 'y', 'x'], 'T6': ['t', 'x']}
+    progs = []
+    for t in sorted(exprs):
+        for e in exprs[t]:
+            ev = {'act': 'eval', 'src': 1, 'others': [], 'args': {
+                'assign': [{'name': 'NEW0', 'e': e}], 'copyall': True}}
+            steps = [ev]
+            for d in dims[t]:
+                for via in ('slice_dim', None):
+                    a = {'sels': [{'d': d, 's': {'k': 'slice', 'h': [
+                        True, False, False], 'v': [1, 0, 0]}}],
+                        'newdim': 'POINTS'}
+                    if via:
+                        a['via'] = via
+                    steps.append({'act': 'slice', 'src': 3, 'others': [],
+                                  'args': a})
+            for pv in ([{'k': 'values', 'v': 205}],
+                       [{'k': 'values', 'v': 205}, {'k': 'equal', 'v': 131}],
+                       [{'k': 'values', 'v': 1}], [{'k': 'equal', 'v': 70000}],
+                       [{'k': 'values', 'v': -1}]):
+                steps.append({'act': 'mask', 'src': 3, 'others': [], 'args': {
+                    'p': pv, 'where': nowhere,
+                    'usedims': {'h': False, 'v': []}, 'coords': False}})
+            steps.append({'act': 'copy', 'src': 3, 'others': [], 'args': {}})
+            progs.append({'templates': [t, t], 'steps': steps})
+    return progs
+
+
+def broadcast_evals(rnd, tier):
+    """C01: eval expressions whose operands have different dimensions (numpy
+    broadcasts them; outside the domain the model gives values for): the call
+    raises or the result is well-formed, whichever operand comes first and
+    whether or not one is masked - and later operations on it work."""
+    def V(k):
+        return {'t': 'var', 'k': k}
+
+    def B(op, l_, r):
+        return {'t': 'bin', 'op': op, 'l': l_, 'r': r}
+    pairs = {'T4': [('H', 'G'), ('D', 'G'), ('D', 'H')],
+             'T1': [('A', 'x'), ('A', 'B'), ('B', 'x')],
+             'T7': [('F', 'z')]}
+    progs = []
+    for t in sorted(pairs):
+        for a, b in pairs[t]:
+            for l_, r in ((a, b), (b, a)):
+                for op in ('+', '*', '<'):
+                    progs.append({'templates': [t, t], 'steps': [
+                        {'act': 'eval', 'src': 1, 'others': [], 'args': {
+                            'assign': [{'name': 'NEW0',
+                                        'e': B(op, V(l_), V(r))}],
+                            'copyall': True}},
+                        {'act': 'copy', 'src': 3, 'others': [], 'args': {}}]})
+    return progs
+
+
 def mixed_arith(rnd, tier):
     """C06: every operator between a file of plain (never masked) variables
     and a masked version of it, in both operand orders."""
@@ -393,9 +470,12 @@ def run(prop, tier, extra=None):
         progs += cd.gen_disk_programs(
             rnd, 120 if tier == 'quick' else 1500, [2, 3], False,
             ['T1', 'T2', 'T3', 'T4', 'T5', 'T7'])
+    if prop == 'C01':
+        progs += broadcast_evals(rnd, tier)
     if prop == 'C06':
         progs += mask_codes(rnd, tier)
         progs += mixed_arith(rnd, tier)
+        progs += derived_types(rnd, tier)
     if prop == 'C04':
         progs += hetero_stacks(rnd, tier)
         progs += mfopen_stacks(rnd, tier)
@@ -407,6 +487,7 @@ def run(prop, tier, extra=None):
     if prop == 'C02':
         progs += zipped_selections(rnd, tier)
         progs += stringform_slices(rnd, tier)
+        progs += derived_types(rnd, tier)
     # spec -> code: every program the bounded model emits is replayed
     mcp = cd.mc_programs(out, prop, tier)
     out.cov['programs_emitted_by_tlc'] = len(mcp)
